@@ -403,6 +403,12 @@ type traceSink struct {
 	n       uint64
 	limit   int
 	dropped int
+	// where to put the walk at once when an engine assertion is about to fire
+	// (the panic that follows takes the process, and the buffered lines, down)
+	path    string
+	hdr     map[string]any
+	flushed int
+	hdrDone bool
 }
 
 func newTraceSink(perturb bool, seed int64, limit int) *traceSink {
@@ -466,6 +472,9 @@ func (t *traceSink) fn(e *server.VerifUDPEvent) {
 	}
 	t.n++
 	x := (t.n + t.seed) * 0x9E3779B97F4A7C15
+	if e.Ev == 2 && e.State != e.From && t.path != "" {
+		_, _ = t.flushLocked(nil)
+	}
 	t.mu.Unlock()
 	if t.perturb {
 		// seeded schedule perturbation at the ownership changes
@@ -485,36 +494,59 @@ func (t *traceSink) fn(e *server.VerifUDPEvent) {
 func (t *traceSink) write(path string, final map[string]any) (int, error) {
 	t.mu.Lock()
 	defer t.mu.Unlock()
-	f, err := os.OpenFile(path, os.O_CREATE|os.O_WRONLY|os.O_APPEND, 0o644)
+	t.path = path
+	if t.hdr == nil {
+		t.hdr = map[string]any{}
+	}
+	for k, v := range final {
+		if strings.HasPrefix(k, "cfg_") {
+			t.hdr[k] = v
+		}
+	}
+	return t.flushLocked(final)
+}
+
+// flushLocked appends the reset line (once), the lines not yet written and,
+// when final is given, the final line.
+func (t *traceSink) flushLocked(final map[string]any) (int, error) {
+	f, err := os.OpenFile(t.path, os.O_CREATE|os.O_WRONLY|os.O_APPEND, 0o644)
 	if err != nil {
 		return 0, err
 	}
 	defer f.Close()
 	enc := json.NewEncoder(f)
-	reset := map[string]any{"ev": "reset"}
-	for k, v := range final {
-		if strings.HasPrefix(k, "cfg_") {
+	n := 0
+	if !t.hdrDone {
+		reset := map[string]any{"ev": "reset"}
+		for k, v := range t.hdr {
 			reset[k] = v
 		}
-	}
-	if err := enc.Encode(reset); err != nil {
-		return 0, err
-	}
-	for i := range t.lines {
-		if err := enc.Encode(&t.lines[i]); err != nil {
+		if err := enc.Encode(reset); err != nil {
 			return 0, err
 		}
+		t.hdrDone = true
+		n++
 	}
-	fin := map[string]any{"ev": "final"}
-	for k, v := range final {
-		if !strings.HasPrefix(k, "cfg_") {
-			fin[k] = v
+	for i := t.flushed; i < len(t.lines); i++ {
+		if err := enc.Encode(&t.lines[i]); err != nil {
+			return n, err
 		}
+		n++
 	}
-	if err := enc.Encode(fin); err != nil {
-		return 0, err
+	t.flushed = len(t.lines)
+	if final != nil {
+		fin := map[string]any{"ev": "final"}
+		for k, v := range final {
+			if !strings.HasPrefix(k, "cfg_") {
+				fin[k] = v
+			}
+		}
+		if err := enc.Encode(fin); err != nil {
+			return n, err
+		}
+		n++
 	}
-	return len(t.lines) + 2, nil
+	return n, nil
 }
 
 // ---------------------------------------------------------------------------
